@@ -41,6 +41,10 @@ def write_templates(W, lens, sym_int):
       "write('\\0' is int); write(' '); write(\"s\"[0] is int); write(' '); write(true is int); write(' '); writeln('\\xff' is int); }\n")
     for v in (smax + 1, 2 * smax + 1, 2 * smax + 7, smax + 1000):
         T('int-const-wrapped-%d' % v, "empty @is_you() { write(%d); write(' '); writeln(%d); write(0 - %d); }\n" % (v, v, v))
+    # what write is handed: a widened byte result of a call after an earlier write(int) used the same stack depth; constants with equal
+    # values in arrays of another element type compiled first
+    T('int-from-byte-call-after-write', "byte seven() { return 7; }\nbyte lowb(int v) { return v is byte; }\nempty @is_you(byte b) { writeln(12345); writeln(seven() is int); writeln(-32100); writeln(lowb(b) is int); write(9999); write(seven() + 0); write(' '); write(seven()); }\n")
+    T('same-values-other-type-first', "const int[] scores = [72, 105];\nconst bool[] flags = [true, false];\nempty @is_you(int i) { sleep(scores[i % 2]); writeln([72, 105]); const byte[] hi = [72, 105]; write(hi); write([1, 0]); write(flags[i % 2]); writeln(\"Hi\"); write([72, 105] is byte[]); }\n")
     T('int-var-min', "empty @is_you(int x) { int m = -%d; m -= 1; write(m); write(x is byte); }\n" % smax)
     T('bool', "empty @is_you(int x) { write(x > 0); write(' '); writeln(x == 0); write(x is bool); }\n")
     T('bool-caller', "empty @is_you(int x, int y) { int a = y; bool[] fl = [true, x > 0, false]; write(fl[1]); sleep(a); write(fl[0]); write(fl[2]); }\n")
